@@ -67,6 +67,57 @@ def ecube_value_rule(chk, facts, vi, xi, ms, rule):
         except Undecided as ex:
             v, d = UNDECIDED, ex.cause
         chk.add(rule, key, v, d, where=where_of(b), sample=dict(obligation=key, lanes=32, verdict=v))
+        # variable windows (window mode): whatever way the parity is computed - popcount, nibble tricks, counts -
+        # every bit is an exact function of the 2k+1 atoms; compared with the definition on all assignments
+        from ..harness import Space
+        for window in ((0, 1, 2, 3, 4), (0, 4, 8, 12, 31), (7, 8, 15, 16, 24), (3, 10, 17, 28, 29, 30, 31)):
+            key = "Ecube::value on variables %s (all terms and assignments over them)" % (list(window),)
+            try:
+                it = Interp(facts)
+                it.prune = True
+                st = State()
+                names = ["e.V[%d]" % i for i in window] + ["m[%d]" % i for i in window] + ["e.X"]
+                space = Space(names)
+                it.space = space
+                f = [None, None]
+                f[vi] = W(32, bits=[B.atom("e.V[%d]" % i) if i in window else ZERO for i in range(32)])
+                f[xi] = W(1, bits=[B.atom("e.X")])
+                e = Agg("adt", ECUBE, 0, f)
+                m = W(64, bits=[B.atom("m[%d]" % i) if i in window else ZERO for i in range(64)])
+                with space:
+                    outs = it.call_body(b, [arg_for(b["sig"]["inputs"][0], e, st), m], st, {})
+                v, d = PROVED, ""
+                covered = 0
+                want = space.var[B.ATOMS.get("e.X")]
+                for i in window:
+                    want ^= space.var[B.ATOMS.get("e.V[%d]" % i)] & space.var[B.ATOMS.get("m[%d]" % i)]
+                for o in outs:
+                    pm = space.pc_mask(o.pc)
+                    if pm is None:
+                        raise Undecided("path condition with top")
+                    if not pm:
+                        continue
+                    if o.kind != "return":
+                        v, d = REFUTED, "panics (%s)" % o.info.get("msg")
+                        break
+                    covered |= pm
+                    got = space.mask(o.value)
+                    if got is None:
+                        raise Undecided("result not exact")
+                    diff = (got ^ want) & pm
+                    if diff:
+                        r_ = (diff & -diff).bit_length() - 1
+                        named = {a_: (r_ >> j) & 1 for j, a_ in enumerate(space.names)}
+                        vs = [i for i in window if named["e.V[%d]" % i]]
+                        ms_ = [i for i in window if named["m[%d]" % i]]
+                        v, d = REFUTED, "the term over variables %s%s returns %d when the variables %s are true; the parity definition gives %d" % (
+                            vs, " (xnor)" if named["e.X"] else "", (got >> r_) & 1, ms_, (want >> r_) & 1)
+                        break
+                if v == PROVED and covered != space.full:
+                    v, d = UNDECIDED, "paths do not cover the window"
+            except Undecided as ex:
+                v, d = UNDECIDED, ex.cause
+            chk.add(rule, key, v, d, where=where_of(b))
 
 
 def run(chk):
